@@ -475,7 +475,15 @@ impl FetchState {
 
         // TODO(finto): this might read better if it got its own
         // private function.
-        for remote in signed_refs.keys() {
+        // N.b. a remote may have advertised special refs without any `rad/sigrefs`: it is not
+        // part of `signed_refs`, but it has pending updates that need to be pruned.
+        let fetched = signed_refs
+            .keys()
+            .chain(self.tips.keys())
+            .copied()
+            .collect::<BTreeSet<_>>();
+
+        for remote in &fetched {
             if handle.is_blocked(remote) {
                 log::trace!(target: "fetch", "Skipping blocked remote {remote}");
                 continue;
